@@ -235,6 +235,41 @@ fn c09_zone(r: &mut Rng) -> (String, Vec<Rec>) {
     (apex, recs)
 }
 
+/// A standard query for `qname A` with two additional records: one of an
+/// unknown type whose RDATA is a root label followed by `links` two-byte
+/// compression pointers, each pointing at the previous one, and an A record
+/// whose owner name is a pointer to the last link.
+fn deep_pointer_chain_query(id: u16, qname: &str, links: usize) -> Vec<u8> {
+    let mut q = Message::from_question(
+        id,
+        Question { name: dn(qname), qtype: QueryType::Record(RecordType::A), qclass: QueryClass::Record(RecordClass::IN) },
+    );
+    q.header.recursion_desired = false;
+    let mut b = q.to_octets().map(|b| b.to_vec()).unwrap_or_default();
+    if b.len() < 12 {
+        return b;
+    }
+    b[10] = 0;
+    b[11] = 2; // ARCOUNT
+    // record 1: owner root, type 65280, class IN, ttl 0, rdlength, rdata
+    b.extend_from_slice(&[0, 0xff, 0x00, 0, 1, 0, 0, 0, 0]);
+    let rdlen = 1 + 2 * links;
+    b.extend_from_slice(&u16::try_from(rdlen).unwrap_or(u16::MAX).to_be_bytes());
+    let mut prev = b.len();
+    b.push(0); // the name every link leads to
+    for _ in 0..links {
+        let here = b.len();
+        b.push(0xC0 | u8::try_from(prev >> 8).unwrap_or(0x3f));
+        b.push((prev & 0xff) as u8);
+        prev = here;
+    }
+    // record 2: owner = pointer to the last link, A IN ttl 0 192.0.2.1
+    b.push(0xC0 | u8::try_from(prev >> 8).unwrap_or(0x3f));
+    b.push((prev & 0xff) as u8);
+    b.extend_from_slice(&[0, 1, 0, 1, 0, 0, 0, 0, 0, 4, 192, 0, 2, 1]);
+    b
+}
+
 fn gen_c09(seed: u64, _index: u64, tier: Tier) -> ServerPlan {
     let mut r = Rng::new(seed);
     let authoritative_only = r.chance(0.7);
@@ -429,6 +464,18 @@ fn gen_c09(seed: u64, _index: u64, tier: Tier) -> ServerPlan {
             }
             _ => {}
         }
+        // a legal query whose additional section holds a long chain of compression
+        // pointers, each pointing at the one before it (all strictly backwards, all
+        // below offset 0x4000): decoding the last name walks the whole chain.  Own
+        // random stream, so that the other messages of a plan stay what they were.
+        {
+            let mut r2 = Rng::new(seed ^ 0x5eed_c4a1_0000 ^ (messages.len() as u64));
+            if tcp && r2.chance(0.04) {
+                let links = *r2.pick(&[300usize, 2000, 5000, 8100]);
+                bytes = deep_pointer_chain_query(id, &qname, links);
+                what = format!("query {qname} A with a chain of {links} compression pointers in the additional section");
+            }
+        }
         let mut m = MsgPlan {
             // (now and then a straggler after the five-minute cache-pruning task has run)
             at_ms: if r.chance(0.01) { 300_000 + r.below(10_000) } else { r.below(horizon + 1) },
@@ -486,6 +533,12 @@ fn gen_c09(seed: u64, _index: u64, tier: Tier) -> ServerPlan {
     faults.insert("tcp.accept_error".into(), *r.pick(&[0.0, 0.0, 0.1]));
     faults.insert("fs.list_order".into(), 0.5);
     faults.insert("order.any_answer".into(), *r.pick(&[0.0, 0.5, 1.0]));
+    // how much stack the server's threads get is a deployment knob (tokio's default
+    // for a worker is 2 MiB); runs that carry a long pointer chain vary it
+    if messages.iter().any(|m| m.what.contains("compression pointers")) {
+        let mut r2 = Rng::new(seed ^ 0x57ac_c000);
+        params.insert("stack_kib".into(), *r2.pick(&[2048u64, 1024, 512, 256]));
+    }
     ServerPlan {
         knobs: ServerKnobsPlan {
             authoritative_only,
@@ -1478,7 +1531,9 @@ fn oracle_c19(plan: &ServerPlan, obs: &ServerObs, seed: u64) -> RunResult {
         // (not in runs where the environment failed a receive of the server's: a
         // server may pause for a moment after such a failure)
         let recv_failed = obs.stats.get("fired.udp.recv_error").copied().unwrap_or(0) > 0;
-        if !plan.knobs.forwarding && m.proto == "udp" && !recv_failed {
+        // (a forwarding server too: the local questions are sent with RD clear and
+        // never travel upstream, whatever else is in flight)
+        if m.proto == "udp" && !recv_failed {
             if let Some((t, _)) = o.replies.first() {
                 let one_way = plan.knobs.params.get("net.latency.min_ms").copied().unwrap_or(1)
                     + plan.knobs.params.get("net.latency.max_extra_ms").copied().unwrap_or(0);
@@ -1488,6 +1543,7 @@ fn oracle_c19(plan: &ServerPlan, obs: &ServerObs, seed: u64) -> RunResult {
                     res.violations.push(
                         Violation::new("c19.reply_held_up")
                             .fact("around_a_reload", during)
+                            .fact("forwarded_request_in_flight", plan.knobs.forwarding)
                             .detail(json!({
                                 "message": m.what, "sent_ms": a, "reply_ms": t, "bound_ms": bound,
                             })),
